@@ -13,6 +13,12 @@ pub enum Error {
     ReferenceError(RString),
     IndexError(RString),
     ArgumentError(RString),
+    /// verification hook: the instruction budget of a run is exhausted
+    #[cfg(feature = "verif")]
+    Budget,
+    /// verification hook: the machine was about to perform an out-of-contract access
+    #[cfg(feature = "verif")]
+    Fault(&'static str),
 }
 
 /// A macro for initialising a struct field (without dropping the original default value)
@@ -231,6 +237,8 @@ impl Object {
     /// It is up to the caller to ensure the object is actually heap-allocated and points to a valid memory location.
     #[inline]
     unsafe fn get<'a, T>(self) -> &'a T {
+        #[cfg(feature = "verif")]
+        crate::verif::check_live(self.as_ptr() as usize);
         &*(self.as_ptr() as *const T)
     }
 
@@ -238,7 +246,15 @@ impl Object {
     /// It is up to the caller to ensure the object is actually heap-allocated and points to a valid memory location.
     #[inline]
     unsafe fn get_mut<'a, T>(self) -> &'a mut T {
+        #[cfg(feature = "verif")]
+        crate::verif::check_live(self.as_ptr() as usize);
         &mut *(self.as_ptr() as *mut T)
+    }
+
+    /// verification hook: the raw tagged word
+    #[cfg(feature = "verif")]
+    pub fn verif_raw(self) -> usize {
+        self.0 as usize
     }
 
     /// Returns true if this pointer does not contain an immediate value
@@ -445,7 +461,17 @@ impl Float {
     }
 
     #[inline]
+    #[cfg_attr(feature = "verif", allow(unreachable_code))]
     unsafe fn destroy(obj: Object) {
+        #[cfg(feature = "verif")]
+        {
+            // shadow heap: released boxes are quarantined (dropped, never handed back to the
+            // allocator) so that a later use of the stale address is recognised
+            if crate::verif::on_free(obj.as_ptr() as usize) {
+                drop_in_place(obj.as_ptr() as *mut Self);
+            }
+            return;
+        }
         drop_in_place(obj.as_ptr() as *mut Self);
         dealloc(obj.as_ptr(), Layout::new::<Self>());
     }
@@ -463,7 +489,17 @@ struct String {
 }
 
 impl String {
+    #[cfg_attr(feature = "verif", allow(unreachable_code))]
     unsafe fn destroy(ptr: Object) {
+        #[cfg(feature = "verif")]
+        {
+            // shadow heap: released boxes are quarantined (dropped, never handed back to the
+            // allocator) so that a later use of the stale address is recognised
+            if crate::verif::on_free(ptr.as_ptr() as usize) {
+                drop_in_place(ptr.as_ptr() as *mut Self);
+            }
+            return;
+        }
         drop_in_place(ptr.as_ptr() as *mut Self);
         dealloc(ptr.as_ptr(), Layout::new::<Self>());
     }
@@ -486,7 +522,17 @@ impl Array {
     }
 
     /// Drops and deallocate this NlArray struct and its value
+    #[cfg_attr(feature = "verif", allow(unreachable_code))]
     unsafe fn destroy(ptr: Object) {
+        #[cfg(feature = "verif")]
+        {
+            // shadow heap: released boxes are quarantined (dropped, never handed back to the
+            // allocator) so that a later use of the stale address is recognised
+            if crate::verif::on_free(ptr.as_ptr() as usize) {
+                drop_in_place(ptr.as_ptr() as *mut Self);
+            }
+            return;
+        }
         drop_in_place(ptr.as_ptr() as *mut Self);
         dealloc(ptr.as_ptr(), Layout::new::<Self>());
     }
@@ -567,11 +613,21 @@ impl Display for Type {
     }
 }
 
+/// verification hook: the integer range
+#[cfg(feature = "verif")]
+pub(crate) fn verif_int_range() -> (isize, isize) {
+    (MIN_INT, MAX_INT)
+}
+
 /// Allocate a chunk of memory with the given layout
 #[inline]
 fn allocate(layout: Layout) -> *mut u8 {
     // Safety: we only call this function for types with a non-zero layout
     let ptr = unsafe { alloc(layout) };
+    #[cfg(feature = "verif")]
+    if !ptr.is_null() {
+        crate::verif::on_alloc(ptr as usize);
+    }
 
     if ptr.is_null() {
         handle_alloc_error(layout);
